@@ -72,7 +72,24 @@ func fname(fn *ssa.Function) string {
 			return fname(par) + s[i:]
 		}
 	}
-	return shortName(fn.String())
+	return canonRecv(shortName(fn.String()))
+}
+
+// canonRecv rewrites the receiver type of a method name to its recorded name ("(*flags).Marshal"
+// ⇒ "(*upgrade).Marshal" when the type was renamed).
+func canonRecv(s string) string {
+	if len(canonTypeOf) == 0 || !strings.HasPrefix(s, "(") {
+		return s
+	}
+	i := strings.Index(s, ")")
+	if i < 0 {
+		return s
+	}
+	recv := strings.TrimPrefix(s[1:i], "*")
+	if c, ok := canonTypeOf[recv]; ok {
+		return strings.Replace(s, recv+")", c+")", 1)
+	}
+	return s
 }
 
 // Load type-checks dir (pattern ".", or "./..." when all is set) without test
@@ -118,6 +135,7 @@ func Load(dir string, all bool, goarch string) (*Prog, error) {
 		return nil, fmt.Errorf("package %s not found in %s", rpcPath, dir)
 	}
 	p.Fset = p.Root.Fset
+	resolveNames(p.Root.Types)
 	prog, _ := ssautil.AllPackages(pkgs, ssa.InstantiateGenerics)
 	prog.Build()
 	p.SSA = prog
@@ -279,7 +297,7 @@ func namedOf(t types.Type) string {
 		if n.Obj().Pkg() != nil && n.Obj().Pkg().Path() != rpcPath {
 			return n.Obj().Pkg().Name() + "." + n.Obj().Name()
 		}
-		return n.Obj().Name()
+		return canonTypeName(n.Obj().Name())
 	}
 	return ""
 }
@@ -303,7 +321,8 @@ func fieldOfAddr(v ssa.Value) (FieldRef, ssa.Value, bool) {
 	if !ok {
 		return FieldRef{}, nil, false
 	}
-	return FieldRef{namedOf(pt.Elem()), st.Field(fa.Field).Name()}, fa.X, true
+	sn := namedOf(pt.Elem())
+	return FieldRef{sn, canonFieldName(sn, st.Field(fa.Field).Name())}, fa.X, true
 }
 
 // fieldOfLoad decodes v as a load of base.field (UnOp * on a FieldAddr, or an
@@ -316,7 +335,8 @@ func fieldOfLoad(v ssa.Value) (FieldRef, ssa.Value, bool) {
 		}
 	case *ssa.Field:
 		if st, ok := x.X.Type().Underlying().(*types.Struct); ok {
-			return FieldRef{namedOf(x.X.Type()), st.Field(x.Field).Name()}, x.X, true
+			sn := namedOf(x.X.Type())
+			return FieldRef{sn, canonFieldName(sn, st.Field(x.Field).Name())}, x.X, true
 		}
 	}
 	return FieldRef{}, nil, false
